@@ -713,6 +713,14 @@ func (m *Machine) reportWith(f *Finding, cond *Term) {
 		f.Tags[k] = v
 	}
 	key := f.Kind + "|" + f.ID + "|" + f.Site + "|" + fmt.Sprint(sortedTags(f.Tags))
+	if f.Abstract {
+		// a finding on a path through an uninterpreted function must not shadow one with the same
+		// signature on an exactly modelled path (only the latter is sure to replay natively)
+		if m.findKeys[key] {
+			return
+		}
+		key += "|abstract"
+	}
 	if m.findKeys[key] {
 		return
 	}
